@@ -100,6 +100,7 @@ func (r *c06Repo) render() string {
 func c06Property(t *rapid.T, st *Stats) {
 	g, cleanup := newGCState(t, st, true)
 	defer cleanup()
+	g.manBlobDelete = true
 	defer func() {
 		if g.abandoned {
 			return
